@@ -1,4 +1,6 @@
 import CoapVerif.Lemmas.Observe
+import CoapVerif.Lemmas.ObserveInv
+import CoapVerif.Lemmas.ObserveRef
 /-
 C11 — Observe: registered observers get fresh, ordered notifications until cancelled.
 Property theorems about M (CoapVerif/Model/Observe.lean), which T2 ties to the compiled libcoap on every run.
@@ -308,3 +310,189 @@ theorem reset_of_notification_removes_partial (st : State) (c mid rid tok : Nat)
   rw [hq]
   dsimp only
   rw [hm]
+
+/-! ## GLOBAL statements: invariants over ALL event sequences (Lemmas/ObserveRun.lean, ObserveInv.lean, ObserveRef.lean) -/
+
+/-! ### GLOBAL: ordering over whole runs -/
+/-- two datagrams of a run address the same observation: same session, token and resource -/
+def SameObs (a b : Out) : Prop := a.c = b.c ∧ a.token = b.token ∧ a.res = b.res
+
+/-- the start value of a resource's counter, extrapolated back to version 0 -/
+def baseOf (st : State) (rid : Nat) : Nat :=
+  match st.res.find? (fun y => y.id == rid) with
+  | some y => (y.observe + 16777216 - y.ver % 16777216) % 16777216
+  | none => 0
+
+theorem baseOf_spec (st : State) (hid : IdsNodup st) (hobs : ∀ y ∈ st.res, y.observe < 16777216) :
+    ∀ y ∈ st.res, y.observe = (baseOf st y.id + y.ver) % 16777216 := by
+  intro y hy
+  unfold baseOf
+  cases hf : st.res.find? (fun z => z.id == y.id) with
+  | none =>
+    have := List.find?_eq_none.mp hf y hy
+    simp at this
+  | some z =>
+    have h1 := List.mem_of_find?_eq_some hf
+    have h2 := List.find?_some hf
+    simp at h2
+    have : z = y := eq_of_id_eq hid h1 hy h2
+    subst this
+    dsimp only
+    have := hobs z hy
+    omega
+
+theorem pair_of_filtered {l : List Out} {p : Out → Bool} {R : Out → Out → Prop} (h : (l.filter p).Pairwise R) {a b : Out}
+    (hab : [a, b].Sublist l) (ha : p a = true) (hb : p b = true) : R a b := by
+  have h1 := hab.filter p
+  have h2 : [a, b].filter p = [a, b] := by simp [List.filter, ha, hb]
+  rw [h2] at h1
+  exact List.pairwise_iff_forall_sublist.mp h h1
+
+/-- observe_strictly_increasing END TO END.  In EVERY run (any start state with distinct resource ids, no duplicate entries
+    and 24-bit counters, any event sequence), of any two notifications (2.05, written by the notify loop) to the same
+    (session, token, resource) the later one reports a strictly later state of the resource (`ver` = number of effective
+    changes: between two notifications to one entry the resource counter HAS advanced), and its Observe value is greater in
+    the 24-bit serial sense whenever fewer than 2^23 changes lie between the two — in particular between consecutive ones. -/
+theorem observe_strictly_increasing_run (st : State) (evs : List Event) (hid : IdsNodup st) (hnd : NoDupSt st)
+    (hobs : ∀ y ∈ st.res, y.observe < 16777216) :
+    (run st evs).2.Pairwise (fun a b => isNotif a = true → isNotif b = true → SameObs a b →
+      a.ver < b.ver ∧ ∀ x z, a.obs = some x → b.obs = some z → b.ver - a.ver < 8388608 → serialGt z x) := by
+  rw [List.pairwise_iff_forall_sublist]
+  intro a b hab hna hnb hso
+  obtain ⟨hc, ht, hr⟩ := hso
+  have hamem : a ∈ (run st evs).2 := hab.subset (List.mem_cons_self ..)
+  have hbmem : b ∈ (run st evs).2 := hab.subset (List.mem_cons_of_mem _ (List.mem_cons_self ..))
+  have hatag : a.tag = .note := by unfold isNotif at hna; simp at hna; exact hna.1
+  have hbtag : b.tag = .note := by unfold isNotif at hnb; simp at hnb; exact hnb.1
+  -- the resource they are about exists
+  have hres : a.res ∈ resIds (run st evs).1 := by rw [run_ids]; exact run_notes evs st a hamem hatag
+  obtain ⟨y, hy, hyid⟩ := List.mem_map.mp hres
+  have hord := run_ordInv st evs hid hnd a.c a.token y hy
+  have hval := run_valInv st evs hid (baseOf st) (baseOf_spec st hid hobs) y hy
+  have hfa : fromRes y.id a = true := by simp [fromRes, hatag, hyid]
+  have hfb : fromRes y.id b = true := by simp [fromRes, hbtag, hyid, ← hr]
+  have hlt : a.ver < b.ver := by
+    have hs := hord.sorted
+    unfold notifsTo at hs
+    rw [List.filter_filter, List.filter_filter] at hs
+    refine pair_of_filtered hs hab ?_ ?_
+    · simp [hna, hfa, toST]
+    · simp [hnb, hfb, toST, ← hc, ← ht]
+  refine ⟨hlt, ?_⟩
+  intro x z hx hz hk
+  have h1 := hval.outs a (List.mem_filter.mpr ⟨hamem, hfa⟩) hna
+  have h2 := hval.outs b (List.mem_filter.mpr ⟨hbmem, hfb⟩) hnb
+  rw [hx] at h1; rw [hz] at h2
+  simp only [Option.some.injEq] at h1 h2
+  rw [h1, h2]
+  unfold serialGt
+  omega
+
+
+/-! witness: the hypotheses are satisfiable and the statement bites — a run across the 24-bit wrap with a burst of changes -/
+def runStart : State := init [mkRes 0 false false 16777214, mkRes 1 true false 7] 30000
+def runEvents : List Event :=
+  [.reg 0 0 1 0 true 1, .chg 0, .adv 0, .chg 0, .chg 0, .adv 0, .chg 0, .adv 0, .chg 0, .adv 0, .chg 0, .adv 0,
+   .chg 0, .adv 0, .chg 0, .adv 0]
+instance (st : State) : Decidable (IdsNodup st) := by unfold IdsNodup; exact inferInstance
+instance (a b : Nat) : Decidable (serialGt a b) := by unfold serialGt; exact inferInstance
+example : IdsNodup runStart := by decide
+example : NoDupSt runStart := by
+  intro y hy; unfold NoDup
+  simp [runStart, init, mkRes] at hy
+  rcases hy with rfl | rfl <;> exact List.Pairwise.nil
+example : ∀ y ∈ runStart.res, y.observe < 16777216 := by decide
+example : ((run runStart runEvents).2.filter fun o => isNotif o).map (fun o => (o.obs, o.ver)) =
+    [(some 16777215, 1), (some 1, 3), (some 2, 4), (some 3, 5), (some 4, 6), (some 5, 7), (some 6, 8)] := by decide
+example : serialGt 1 16777215 := by decide
+
+/-- the 2.05 notifications of a run to observation (session c, token tok) of resource rid, in order -/
+def notificationsTo (rid c tok : Nat) (outs : List Out) : List Out := notifsTo c tok (outs.filter (fromRes rid))
+
+/-- every_sixth_con OVER WHOLE RUNS.  From any state with distinct resource ids, a resource `rid` without NOTIFY_NON_ALWAYS (D8),
+    no duplicate entries and NON counters in range (all invariants of every run: `run_idsNodup`, `reregistration_replaces`,
+    `nonCnt_in_range`), over ANY event sequence in which (c, tok) does not register anew on rid — i.e. within one registration
+    epoch of the entry — every window of COAP_OBS_MAX_NON + 1 consecutive notifications to that entry contains a Confirmable
+    one. -/
+theorem every_sixth_con_run (st : State) (evs : List Event) (rid c tok : Nat) (hid : IdsNodup st)
+    (h0 : ∀ y ∈ st.res, y.id = rid → NoDup y ∧ y.fNonAlways = false ∧ NonCntOk y)
+    (hepoch : ∀ e ∈ evs, ¬ RegEv e rid c tok) :
+    ∀ pre w post, (notificationsTo rid c tok (run st evs).2).map isConOut = pre ++ w ++ post → w.length = obsMaxNon + 1 →
+      true ∈ w := by
+  intro pre w post heq hl
+  by_cases hex : ∃ y ∈ (run st evs).1.res, y.id = rid
+  · obtain ⟨y, hy, hyid⟩ := hex
+    have := (run_cadInv st evs hid rid c tok hepoch h0 y hy hyid).window
+    unfold kindsTo at this
+    rw [hyid] at this
+    unfold notificationsTo at heq
+    rw [heq] at this
+    exact windowOk_window pre w post 0 this hl
+  · -- no such resource: nothing is ever written about it
+    exfalso
+    have hnil : notificationsTo rid c tok (run st evs).2 = [] := by
+      unfold notificationsTo notifsTo
+      rw [List.filter_filter, List.filter_filter, List.filter_eq_nil_iff]
+      intro a ha hp
+      simp [isNotif, fromRes] at hp
+      have := run_notes evs st a ha hp.1.1.1
+      rw [← run_ids st evs] at this
+      obtain ⟨y, hy, hyid⟩ := List.mem_map.mp this
+      exact hex ⟨y, hy, hyid.trans hp.2.2⟩
+    rw [hnil] at heq
+    have : w = [] := by
+      have h1 := congrArg List.length heq
+      simp at h1
+      exact List.eq_nil_of_length_eq_zero (by omega)
+    subst this
+    simp at hl
+
+/-- the range of the NON counter is an invariant of every run -/
+theorem nonCnt_in_range (st : State) (evs : List Event) (hid : IdsNodup st) (h : ∀ y ∈ st.res, NonCntOk y) :
+    ∀ y ∈ (run st evs).1.res, NonCntOk y := run_nonCntOk st evs hid h
+
+
+example : ∀ y ∈ runStart.res, y.id = 0 → NoDup y ∧ y.fNonAlways = false ∧ NonCntOk y := by
+  intro y hy hid
+  simp [runStart, init, mkRes] at hy
+  rcases hy with rfl | rfl
+  · exact ⟨List.Pairwise.nil, rfl, fun o ho => by cases ho⟩
+  · cases hid
+example : ∀ e ∈ runEvents.tail, ¬ RegEv e 0 0 1 := by
+  intro e he ⟨key, con, mid, h⟩
+  subst h
+  simp [runEvents] at he
+example : (notificationsTo 0 0 1 (run runStart runEvents).2).map isConOut = [false, false, false, false, false, true, false] := by decide
+
+/-! ### GLOBAL: the session stays alive while it has observers -/
+/-- session_alive_while_observed, FULL: `ref(session) = #observer entries of it in all resources + #its queued nodes` (application
+    references are 0 in M) is an invariant of EVERY run from any state with distinct resource ids in which it holds (e.g. `init`
+    with empty subscriber lists, `ref_eq_holders_init`). -/
+theorem ref_eq_holders (st : State) (evs : List Event) (hid : IdsNodup st) (h : RefInv st) :
+    ∀ c, (getSess (run st evs).1 c).ref = entriesOf (run st evs).1 c + nodesOf (run st evs).1 c :=
+  run_refInv st evs hid h
+
+theorem ref_eq_holders_init (res : List Res) (stTicks : Nat) (hs : ∀ y ∈ res, y.subs = []) (hn : (res.map (·.id)).Nodup)
+    (evs : List Event) : RefInv (run (init res stTicks) evs).1 :=
+  run_refInv _ evs hn (init_refInv res stTicks hs)
+
+/-- … hence in every reachable state the session object of every listed observer exists and is referenced (ref ≥ 1) … -/
+theorem session_alive_while_observed (st : State) (evs : List Event) (hid : IdsNodup st) (h : RefInv st) :
+    ∀ y ∈ (run st evs).1.res, ∀ o ∈ y.subs, ∃ s, (run st evs).1.sess o.sess = some s ∧ 1 ≤ s.ref :=
+  Coap.Observe.session_alive_while_observed st evs hid h
+
+/-- … likewise while a Confirmable notification to it is still queued for retransmission … -/
+theorem session_alive_while_queued (st : State) (evs : List Event) (hid : IdsNodup st) (h : RefInv st) :
+    ∀ q ∈ (run st evs).1.sendq, ∃ s, (run st evs).1.sess q.sess = some s ∧ 1 ≤ s.ref :=
+  Coap.Observe.session_alive_while_queued st evs hid h
+
+/-- … and the idle reclaim of coap_io_prepare_io never frees it, in any reachable state. -/
+theorem idle_reclaim_keeps_observed (st : State) (evs : List Event) (hid : IdsNodup st) (h : RefInv st) :
+    ∀ y ∈ (run st evs).1.res, ∀ o ∈ y.subs, (reclaim (run st evs).1).sess o.sess = (run st evs).1.sess o.sess :=
+  reclaim_keeps_observed _ (run_refInv st evs hid h)
+
+example : RefInv runStart := init_refInv _ _ (by decide)
+example : (getSess (run runStart runEvents).1 0).ref = 2 ∧ entriesOf (run runStart runEvents).1 0 = 1 ∧
+    nodesOf (run runStart runEvents).1 0 = 1 := by decide
+
+end Coap.C11
